@@ -147,7 +147,9 @@ static std::string fault_site() {
     if (nm[0] == '?' || std::strncmp(nm, "_Zn", 3) == 0 || std::strncmp(nm, "__gmp", 5) == 0 || std::strstr(nm, "c14")) continue;
     char buf[300]; std::string d = c14::demangle(nm, buf, sizeof buf);
     if (d.compare(0, 5, "std::") == 0 || d.compare(0, 11, "__gnu_cxx::") == 0 || d.find("__gmp_expr") == 0) continue;
-    if (d == "main" || d.find("sweep") == 0 || d.find("LScn::") == 0 || d.find("DScn<") == 0 || d.find("MipScn") == 0 || d.find("PipScn") == 0) break;
+    if (d.find("Counting_Throwable") != std::string::npos || d.find("too_fat") == 0 || d.find("maybe_abandon") != std::string::npos
+        || d.find("Threshold_Watcher") != std::string::npos || d.find("Watchdog::Handler") != std::string::npos || d.find("Weightwatch_Traits") != std::string::npos) continue;
+    if (d == "main" || d.find("sweep") == 0 || d.find("abandon") == 0 || d.find("weight") == 0 || d.find("LScn::") == 0 || d.find("DScn<") == 0 || d.find("MipScn") == 0 || d.find("PipScn") == 0) break;
     size_t pos = d.find("Parma_Polyhedra_Library::"); while (pos != std::string::npos) { d.erase(pos, 25); pos = d.find("Parma_Polyhedra_Library::"); }
     for (size_t i = 0; i < d.size(); ++i) if (d[i] == ' ') d[i] = '_';
     r += (n ? "<" : "") + d; ++n;
@@ -253,7 +255,7 @@ struct Abandon_Exn : public std::exception { const char* what() const throw() { 
 struct Counting_Throwable : public Throwable {
   mutable long count; long at;
   Counting_Throwable() : count(0), at(0) {}
-  void throw_me() const { if (++count == at) throw Abandon_Exn(); }
+  void throw_me() const { if (++count == at) { c14::bt_throw_len = backtrace(c14::bt_throw, c14::BT_DEPTH); throw Abandon_Exn(); } }
 };
 static Counting_Throwable g_thr;
 
@@ -262,15 +264,17 @@ static int abandon(Scn& s, long maxk) {
   std::cout << "scenario " << s.name << " abandon\n";
   long positions = 0, leaks = 0, invalid = 0, unusable = 0, argchg = 0, strongk = 0;
   bool completed = false;
+  std::string site; site.reserve(4000);
   for (long k = 1; k <= maxk; ++k) {
     purge_caches();
     long base = c14::live_blocks;
     s.build();
-    g_thr.count = 0; g_thr.at = k;
+    g_thr.count = 0; g_thr.at = k; c14::bt_throw_len = 0;
     std::string out = "ok";
     abandon_expensive_computations = &g_thr;
     try { s.call(); } catch (const Abandon_Exn&) { out = "abandoned"; } catch (const std::exception& e) { out = exn_name(e); }
     abandon_expensive_computations = 0;
+    { std::string fs = (out != "ok") ? fault_site() : std::string("-"); site.assign(fs.c_str()); }   // innermost library functions around the checkpoint
     long reached = g_thr.count;
     bool valid = false, use = false, arg = false, strong = false; std::string chk_exn;
     try { valid = s.valid(); arg = s.arg_unchanged(); strong = valid && s.strong(); use = valid && s.usable(); }
@@ -279,7 +283,7 @@ static int abandon(Scn& s, long maxk) {
     long leak = c14::live_blocks - base;
     if (out == "ok") { std::cout << "k=" << k << " out=ok checkpoints=" << reached << " leak=" << leak << " valid=" << valid << " use=" << use << "\n"; completed = true; if (leak) ++leaks; break; }
     ++positions; if (leak) ++leaks; if (!valid) ++invalid; if (!use) ++unusable; if (!arg) ++argchg; if (strong) ++strongk;
-    std::cout << "k=" << k << " out=" << out << " leak=" << leak << " valid=" << valid << " use=" << use << " arg=" << arg << " strong=" << strong << (chk_exn.empty() ? "" : " chkexn=") << chk_exn << "\n";
+    std::cout << "k=" << k << " out=" << out << " at=" << site << " leak=" << leak << " valid=" << valid << " use=" << use << " arg=" << arg << " strong=" << strong << (chk_exn.empty() ? "" : " chkexn=") << chk_exn << "\n";
   }
   s.build(); s.call(); std::string r1 = s.result(); bool v1 = s.valid(); s.destroy(); purge_caches();
   std::cout << "done " << s.name << " positions=" << positions << " completed=" << completed << " exn=" << positions << " leaks=" << leaks << " invalid=" << invalid
@@ -287,7 +291,7 @@ static int abandon(Scn& s, long maxk) {
   return 0;
 }
 
-static void too_fat() { throw Abandon_Exn(); }
+static void too_fat() { c14::bt_throw_len = backtrace(c14::bt_throw, c14::BT_DEPTH); throw Abandon_Exn(); }
 static int weight(Scn& s, long steps) {
   s.build();
   Weightwatch_Traits::Threshold w0 = Weightwatch_Traits::weight;
@@ -297,6 +301,7 @@ static int weight(Scn& s, long steps) {
   { try { Weightwatch ww(1ULL << 60, too_fat); } catch (...) {} }   // the watcher's own first-use allocation
   std::cout << "scenario " << s.name << " weight total=" << total << "\n";
   long positions = 0, leaks = 0, invalid = 0, unusable = 0, argchg = 0, strongk = 0, abandoned = 0;
+  std::string site; site.reserve(4000);
   if (steps < 1) steps = 1;
   for (long i = 0; i <= steps; ++i) {
     unsigned long long thr = (total * (unsigned long long) i) / (unsigned long long) steps;
@@ -304,18 +309,19 @@ static int weight(Scn& s, long steps) {
     purge_caches();
     long base = c14::live_blocks;
     s.build();
-    std::string out = "ok";
+    std::string out = "ok"; c14::bt_throw_len = 0;
     {
       try { Weightwatch ww(thr, too_fat); s.call(); }
       catch (const Abandon_Exn&) { out = "abandoned"; } catch (const std::exception& e) { out = exn_name(e); }
     }
+    { std::string fs = (out != "ok") ? fault_site() : std::string("-"); site.assign(fs.c_str()); }
     bool valid = false, use = false, arg = false, strong = false; std::string chk_exn;
     try { valid = s.valid(); arg = s.arg_unchanged(); strong = valid && s.strong(); use = valid && s.usable(); }
     catch (const std::exception& e) { chk_exn = exn_name(e); }
     s.destroy(); purge_caches();
     long leak = c14::live_blocks - base;
     ++positions; if (out != "ok") ++abandoned; if (leak) ++leaks; if (!valid) ++invalid; if (!use) ++unusable; if (!arg) ++argchg; if (strong) ++strongk;
-    std::cout << "k=" << thr << " out=" << out << " leak=" << leak << " valid=" << valid << " use=" << use << " arg=" << arg << " strong=" << strong << (chk_exn.empty() ? "" : " chkexn=") << chk_exn << "\n";
+    std::cout << "k=" << thr << " out=" << out << " at=" << site << " leak=" << leak << " valid=" << valid << " use=" << use << " arg=" << arg << " strong=" << strong << (chk_exn.empty() ? "" : " chkexn=") << chk_exn << "\n";
   }
   s.build(); s.call(); std::string r1 = s.result(); bool v1 = s.valid(); s.destroy(); purge_caches();
   std::cout << "done " << s.name << " positions=" << positions << " completed=1 exn=" << abandoned << " leaks=" << leaks << " invalid=" << invalid
